@@ -85,11 +85,12 @@ theorem chain_step {p : Params ℝ} {kCN k : Nat} {vs : List (Vial ℝ)} (h : VC
 /-- the initial ice of a supercooled vial is positive (a condition on the constants; C06) -/
 def JumpPos (p : Params ℝ) : Prop := ∀ T, T < p.c.T_eq_l → 0 < sigmaJump p.initIce p.c T
 
-/-- admissible trajectory (monitored on every run): the ice fraction is never negative and a
-vial that contains ice keeps some -/
+/-- admissible trajectory (MONITORED on every real run; derived from C06's run invariant in
+`C12.adm_of_trajAdm`): in the stored columns — every element of the chain but the last, which is the
+state after the final step — the ice fraction is never negative and a vial that contains ice keeps some -/
 structure Adm (vs : List (Vial ℝ)) : Prop where
-  nonneg : ∀ j, j < vs.length → 0 ≤ (nth vs j).sigma
-  keeps : ∀ j m, j ≤ m → m < vs.length → 0 < (nth vs j).sigma → 0 < (nth vs m).sigma
+  nonneg : ∀ j, j + 1 < vs.length → 0 ≤ (nth vs j).sigma
+  keeps : ∀ j m, j ≤ m → m + 1 < vs.length → 0 < (nth vs j).sigma → 0 < (nth vs m).sigma
 
 /-- a vial that has never nucleated -/
 def Fresh (v : Vial ℝ) : Prop := v.sigma = 0 ∧ v.tNuc = none ∧ v.TNuc = none ∧ v.tSol = none
@@ -165,9 +166,9 @@ theorem tnuc_of_first_ice (hc : VChain p kCN k vs) (h0 : Fresh (nth vs 0)) (ha :
 
 /-- a vial all of whose columns up to `m` are ice-free has no record at `m` -/
 theorem no_record (hc : VChain p kCN k vs) (h0 : Fresh (nth vs 0)) (hJ : JumpPos p) (ha : Adm vs) (m : Nat)
-    (hm : m < vs.length) (hz : ∀ j, j ≤ m → ¬ 0 < (nth vs j).sigma) :
+    (hm : m + 1 < vs.length) (hz : ∀ j, j ≤ m → ¬ 0 < (nth vs j).sigma) :
     (nth vs m).tNuc = none ∧ (nth vs m).TNuc = none :=
-  liquid_prefix hc h0 hJ m hm
+  liquid_prefix hc h0 hJ m (by omega)
     (fun j' h => le_antisymm (not_lt.mp (hz j' h)) (ha.nonneg j' (by omega)))
 
 /-- every recorded nucleation time is `(k'+1)·dt` for a step `k'` that has been executed -/
@@ -512,5 +513,105 @@ theorem jumpPos_of_valid (ph : Phys) (hv : ph.Valid) (p : Params ℝ) (hc : p.c 
     have hgam : ph.lam / ph.cpl * (1 - ph.w_s) = ph.gamma := by unfold Phys.gamma; ring
     rw [hgam]
     exact div_pos (by linarith) (by linarith [hv.D_pos, hv.gamma_pos])
+
+
+/-! ### the nucleating step with its actual heat flow; the rows are rows of the stored matrix -/
+
+theorem traj_get (inp : Inputs ℝ) (kCN j : Nat) (hj : j < NN inp) :
+    (runWith inp kCN).traj[j]? =
+      some ((states inp.p kCN 0 (profile inp.oc inp.p.dt) (init inp))[j]'(by simp [profile_len]; unfold NN at hj; omega)) := by
+  have hl : j < (trajList inp.p kCN 0 (profile inp.oc inp.p.dt) (init inp)).length := by
+    simp [profile_len]; exact hj
+  rw [← Array.getElem?_toList, runWith_traj, List.getElem?_eq_getElem hl]
+  congr 1
+  simp only [states_eq]
+  rw [List.getElem_append_left hl]
+
+/-- **the recorded nucleation temperature, exactly**: if vial `i` is ice-free in column `j` and
+contains ice in column `j+1`, its `T_nucleation` after step `j` is its stored temperature in column
+`j` plus the sensible update `q/hl·dt` with `q` the vial's ACTUAL net heat flow of step `j`
+(`Flake.heatFlow` of the batch state stored in column `j` and the shelf sample `T_shelf[j]`). -/
+theorem Tnuc_exact (inp : Inputs ℝ) (kCN i j : Nat) (hi : i < inp.nVials) (hj : j < NN inp)
+    (hz : (nth (vtraj inp kCN i) j).sigma = 0) (hn : (nth (vtraj inp kCN i) (j + 1)).sigma ≠ 0) :
+    ∃ (S : State ℝ) (Tsh : ℝ), (runWith inp kCN).traj[j]? = some S ∧ (runWith inp kCN).Tshelf[j]? = some Tsh ∧
+      (nth (vtraj inp kCN i) (j + 1)).TNuc
+        = some ((nth (vtraj inp kCN i) j).T + heatFlow inp.p (temps S) Tsh Tsh i / inp.p.c.hl * inp.p.dt) := by
+  have hlen := vtraj_length inp kCN i
+  have hjn : j < nSteps inp.oc.t_tot inp.p.dt := hj
+  have hl : j < (profile inp.oc inp.p.dt).length := by rw [profile_len]; exact hj
+  refine ⟨_, (profile inp.oc inp.p.dt)[j], traj_get inp kCN j hj, ?_, ?_⟩
+  · show (profile inp.oc inp.p.dt)[j]? = _
+    exact List.getElem?_eq_getElem hl
+  · have h := vtraj_succ inp kCN i j hi hjn
+    simp only at h
+    have e1 := nth_eq (vtraj inp kCN i) (j + 1) (by omega)
+    have e0 := nth_eq (vtraj inp kCN i) j (by omega)
+    rw [e1] at hn ⊢
+    rw [e0] at hz ⊢
+    rw [h] at hn ⊢
+    unfold vialStep at hn ⊢
+    rcases vfinal_liquid inp.p (j == kCN) (timeAt inp.p.dt j) _ _ _ _ _ hz with hh | hh
+    · rw [hh.2.2.2]; simp [midT, liquidTemp]
+    · exact absurd hh.1 hn
+
+theorem masked_all_true {β : Type} (xs : List β) : masked (List.replicate xs.length true) xs = xs := by
+  induction xs with
+  | nil => rfl
+  | cons x xs ih =>
+    simp only [masked, List.length_cons, List.replicate_succ, List.zip_cons_cons, List.filter_cons_of_pos,
+      List.map_cons] at ih ⊢
+    rw [ih]
+
+/-- **the rows are rows of the model's stored matrix** (full recording): column `k` of `Result.X` is
+the stored temperatures followed by the stored ice fractions, and its entries `i` and `n + i` are
+entry `k` of `tempRow i` and `sigmaRow i` — what `X_T[i, k]` and `X_sigma[i, k]` read. -/
+theorem X_rows (inp : Inputs ℝ) (kCN i k : Nat) (hi : i < inp.nVials) (hk : k < NN inp) :
+    ∃ col, ((runWith inp kCN).X (List.replicate inp.nVials true))[k]? = some col ∧
+      col[i]? = (tempRow inp kCN i)[k]? ∧ col[inp.nVials + i]? = (sigmaRow inp kCN i)[k]? ∧
+      (tempRow inp kCN i)[k]? ≠ none := by
+  have hS := traj_get inp kCN k hk
+  set S := (states inp.p kCN 0 (profile inp.oc inp.p.dt) (init inp))[k]'(by
+    simp [profile_len]; unfold NN at hk; omega) with hSdef
+  have hsz : S.vials.size = inp.nVials := by
+    have := states_size inp.p kCN 0 (profile inp.oc inp.p.dt) (init inp) S (List.getElem_mem _)
+    rw [this]; simp [init]
+  have hl1 : (S.vials.toList.map (·.T)).length = inp.nVials := by simp [hsz]
+  have hl2 : (S.vials.toList.map (·.sigma)).length = inp.nVials := by simp [hsz]
+  have hS' : (runWith inp kCN).traj.toList[k]? = some S := by rw [Array.getElem?_toList]; exact hS
+  refine ⟨column (List.replicate inp.nVials true) S, ?_, ?_, ?_, ?_⟩
+  · simp only [Result.X, List.getElem?_map, hS', Option.map_some]
+  · have e : masked (List.replicate inp.nVials true) (S.vials.toList.map (·.T)) = S.vials.toList.map (·.T) := by
+      have := masked_all_true (S.vials.toList.map (·.T)); rwa [hl1] at this
+    simp only [column, e]
+    rw [List.getElem?_append_left (by rw [hl1]; exact hi)]
+    simp only [tempRow, List.getElem?_map, hS', Option.map_some, vAt]
+    simp [hsz, hi]
+  · have e1 : masked (List.replicate inp.nVials true) (S.vials.toList.map (·.T)) = S.vials.toList.map (·.T) := by
+      have := masked_all_true (S.vials.toList.map (·.T)); rwa [hl1] at this
+    have e2 : masked (List.replicate inp.nVials true) (S.vials.toList.map (·.sigma)) = S.vials.toList.map (·.sigma) := by
+      have := masked_all_true (S.vials.toList.map (·.sigma)); rwa [hl2] at this
+    simp only [column, e1, e2]
+    rw [List.getElem?_append_right (by rw [hl1]; omega)]
+    simp only [hl1, Nat.add_sub_cancel_left]
+    simp only [sigmaRow, List.getElem?_map, hS', Option.map_some, vAt]
+    simp [hsz, hi]
+  · simp only [tempRow, List.getElem?_map, hS', Option.map_some]; simp
+
+
+/-- column `j` of the run, vial `i`: the batch state, the vial record, and the chain element agree -/
+theorem col_vial (inp : Inputs ℝ) (kCN i j : Nat) (hi : i < inp.nVials) (hj : j < NN inp) :
+    ∃ (S : State ℝ) (v : Vial ℝ), (runWith inp kCN).traj[j]? = some S ∧ S.vials[i]? = some v ∧
+      nth (vtraj inp kCN i) j = v := by
+  have hS := traj_get inp kCN j hj
+  set S := (states inp.p kCN 0 (profile inp.oc inp.p.dt) (init inp))[j]'(by
+    simp [profile_len]; unfold NN at hj; omega) with hSdef
+  have hsz : S.vials.size = inp.nVials := by
+    have := states_size inp.p kCN 0 (profile inp.oc inp.p.dt) (init inp) S (List.getElem_mem _)
+    rw [this]; simp [init]
+  have hi' : i < S.vials.size := by rw [hsz]; exact hi
+  refine ⟨S, S.vials[i], hS, Array.getElem?_eq_getElem hi', ?_⟩
+  rw [nth_eq _ j (by rw [vtraj_length]; unfold NN at hj; omega)]
+  simp only [vtraj, List.getElem_map]
+  simp [vAt, hi', ← hSdef]
 
 end Snow.FlakeStatsLemmas
